@@ -27,7 +27,9 @@ class Frag:
         self.events[name] = self.events.get(name, 0) + 1
 
     def near(self, x, thr, what):
-        if abs(x - thr) < MARGIN:
+        # MARGIN, plus the round-off of doubles at the magnitude of the compared values (2^-45 relative: nothing for small data,
+        # ~0.15 at 5e12 where one ulp is already 1e-3 > eps)
+        if abs(x - thr) < MARGIN + F(1, 2**45) * max(abs(x), abs(thr)):
             self.why.append(what)
 
     def tie(self, what):
@@ -82,7 +84,9 @@ def solve_lp(c, A, b, minimize, eps, max_iter, num=F):
     w = list(c) if minimize else [-v for v in c]
     mat = []
     for i in range(m):
-        mat.append([num(v) for v in A[i]] + [num(1 if k == i else 0) for k in range(m)] + [num(b[i])])
+        # commit 96ecc58: row equilibration (every constraint row and its rhs divided by the row's largest |coefficient|)
+        scale = max((abs(num(v)) for v in A[i]), default=num(0)) or num(1)
+        mat.append([num(v) / scale for v in A[i]] + [num(1 if k == i else 0) for k in range(m)] + [num(b[i]) / scale])
     mat.append([num(v) for v in w] + [num(0)] * (m + 1))
     basis = list(range(n, n + m))
     iters = 0
